@@ -8,14 +8,14 @@ from gen import charset as G
 def main():
     chk = common.Check('C20')
     import charset_common as C
-    proved = chk.prove('I18n.Props.C20', generated=('charset', 'charsetcns', 'iconv', 'encodings'), extra_targets=())
+    proved = chk.prove('I18n.Props.C20', generated=('charset', 'charsetcns', 'iconv', 'encodings', 'ling'), extra_targets=())
     # the tie by translation (first part): lib/iconv.py regenerated from the current source and proved equal to the loop model (Props/C20Tie.lean)
-    tie_ok = common.prove_tie(chk, 'I18n.Props.C20Tie', ('iconv', 'encodings'),
+    tie_ok = common.prove_tie(chk, 'I18n.Props.C20Tie', ('iconv', 'encodings', 'ling'),
                               '_decode_dl / _encode_dl / decode / encode regenerated from the current lib/iconv.py, or the constants and functions regenerated '
-                              'from the current lib/encodings.py, are no longer proved equal to the model of Model/Charset.lean (generated_*_eq_model and the '
+                              'from the current lib/encodings.py, or Language.get_unrepresentable_characters regenerated from lib/ling.py, are no longer proved equal to the model of Model/Charset.lean (generated_*_eq_model and the '
                               'theorems restated about them)')
     problems = ' '.join(p for p in chk.lean.problems if not p.startswith('I18n.Props.C20Tie'))
-    driver_ok = os.path.exists(common.driver_path()) and not any('untranslatable' in s for k, s in chk.lean.translation.items() if k not in ('iconv', 'encodings')) \
+    driver_ok = os.path.exists(common.driver_path()) and not any('untranslatable' in s for k, s in chk.lean.translation.items() if k not in ('iconv', 'encodings', 'ling')) \
         and 'Driver' not in problems and 'I18n.Model' not in problems and 'I18n.Generated' not in problems
     E, I, L = C.mods()
     if C.IMPORT_ERROR:
